@@ -234,13 +234,13 @@ def invariants(case, rb):
         if broken:
             # a module that does not parse / an import that does not resolve: every evaluation that depends on it
             # is rejected with a SyntaxError before any body runs; evaluations that do not are judged as usual
-            if broken in rs:
+            hit = sorted(m for m in (meta.get("linkfail"), meta.get("parsefail")) if m and m in rs)
+            if hit:
                 if st != "rejected:Error<SyntaxError>":
-                    bad.append(("broken-graph-outcome", "%s(%s) = %s although %s cannot be %s" % (
-                        e["what"], x, st, broken, "parsed" if meta.get("parsefail") else "linked")))
+                    bad.append(("broken-graph-outcome", "%s(%s) = %s although %s cannot be parsed/linked" % (e["what"], x, st, hit)))
                 if t1 != t0 and not has_dyn:
-                    bad.append(("broken-graph-ran-code", "%s(%s) printed %s although %s cannot be %s" % (
-                        e["what"], x, trace[t0:t1][:6], broken, "parsed" if meta.get("parsefail") else "linked")))
+                    bad.append(("broken-graph-ran-code", "%s(%s) printed %s although %s cannot be parsed/linked" % (
+                        e["what"], x, trace[t0:t1][:6], hit)))
                 continue
         failed = [m for m in rs if m in meta["throws"] and _first(trace[:t1], "s " + m) is not None]
         if failed:
@@ -677,7 +677,7 @@ def run(tier, seed):
     if nb:
         process(cx, nb, "nb")
     n_exh, n_reps, n_node = stream_exhaustive(cx, 4 if thorough else 3, 60000 if thorough else 5000)
-    stream_random(cx, r.fork("random"), 40000 if thorough else 2500, avoid)
+    stream_random(cx, r.fork("random"), 40000 if thorough else 1500, avoid)
     replay_known(cx, findings)
     chk.assumptions = [
         "node 20's ESM loader (V8) is the reference for body order and outcomes; for graphs with dynamic import() the interleaving "
